@@ -98,7 +98,7 @@ func c18(c *Ctx) {
 					good = false
 				}
 				for _, r := range rets {
-					if b, ok := cfgx.ConstBool(r.Results[0]); !ok || !b {
+					if b, ok := cfgx.ConstBool(cfgx.ReturnValue(r, 0)); !ok || !b {
 						good = false
 					}
 				}
@@ -130,7 +130,7 @@ func c18(c *Ctx) {
 					rets := cfgx.ReturnsReachable(t, nil)
 					reg = len(rets) > 0
 					for _, r := range rets {
-						if b, ok := cfgx.ConstBool(r.Results[0]); !ok || !b {
+						if b, ok := cfgx.ConstBool(cfgx.ReturnValue(r, 0)); !ok || !b {
 							reg = false
 						}
 					}
@@ -355,7 +355,7 @@ func c18(c *Ctx) {
 		c.R.Check(nl > 0 && keysOK, load.FuncName(al)+": lookup keys", c.pos(al.Pos()), "children are looked up by p[0] or the wildcard only", "the allow tree is consulted with a key other than the request's first segment or the wildcard")
 		for _, b := range al.Blocks {
 			if r, ok := b.Instrs[len(b.Instrs)-1].(*ssa.Return); ok {
-				if v, isC := cfgx.ConstBool(r.Results[0]); isC && v {
+				if v, isC := cfgx.ConstBool(cfgx.ReturnValue(r, 0)); isC && v {
 					c.requireCross(load.FuncName(al)+": return true @"+b.Comment+"#"+itoa(b.Index), r, lookOK, "a successful n.children[k] lookup")
 				} else if !isC {
 					c.R.Bad(load.FuncName(al)+": computed return", c.pos(r.Pos()), "Allowed returns a computed value; the rule only recognises constant returns guarded by lookups")
